@@ -11,6 +11,7 @@ from ..excflow import ExcFlow, named_groups
 from ..tables import tables_of
 from ..constfold import try_fold
 from ..mutate import Mutant, in_func
+from .. import guardspec
 from . import c10
 from ..report import Result
 
@@ -792,6 +793,53 @@ def rule_r15(prog, res):
     res.floor('R15', 'date/time writer-reader pairs', n, 3)
 
 
+# ------------------------------------------------------------------ R16
+def rule_r16(prog, res):
+    res.rule('R16', 'XML readers of text-carried binary members (tag body, '
+             'attributes) decode with the protocol\'s binary encoding, as the '
+             'writers encode')
+    x = prog.cls('spyne.protocol.xml:XmlDocument')
+    f = x.methods.get('complex_from_element')
+    if f is None:
+        raise AnalysisError('XmlDocument.complex_from_element', 'not found')
+    groups = {}
+    for c in calls_in(f.node):
+        if call_name(c) in ('_validated_from_unicode', 'from_unicode') and \
+                c.args:
+            groups.setdefault(unparse(c.args[0]), []).append(c)
+    need = ('xtba_type.type', 'member.type')
+    n = 0
+    for t in need:
+        cs = groups.get(t, [])
+        if not cs:
+            continue
+        n += 1
+        good = []
+        for c in cs:
+            if len(c.args) >= 3 and unparse(c.args[2]) == \
+                    'self.binary_encoding':
+                st = c
+                while not isinstance(st, ast.stmt):
+                    st = st._parent
+                atoms = guardspec.atoms_at(st, f.node)
+                if any(tx.startswith('issubclass(%s' % t) and 'ByteArray' in
+                       tx and pol for tx, pol in atoms):
+                    good.append(c)
+        where = '%s:%d' % (f.module.relpath, cs[0].lineno)
+        res.ob('R16', where, 'complex_from_element reads %s with %d calls, %d '
+               'of them pass self.binary_encoding for binary types' % (
+                   t, len(cs), len(good)), 'ok' if good else 'VIOLATED')
+        if not good:
+            res.finding('R16', 'XmlDocument.complex_from_element|%s|'
+                        'binary-encoding' % t, where, 'the text carried for '
+                        '%s is decoded without the protocol\'s binary '
+                        'encoding: byte_array_from_bytes has no fallback and '
+                        'takes the identity decoder, so a ByteArray/File '
+                        'member comes back as the base64 text that was on '
+                        'the wire instead of the bytes that were sent' % t)
+    res.floor('R16', 'text carriers of typed members', n, 2)
+
+
 def run(prog, res, tier):
     res.run_rule(rule_r1, prog, res)
     res.run_rule(rule_r2_r7, prog, res, tier)
@@ -807,6 +855,7 @@ def run(prog, res, tier):
     res.run_rule(rule_r13, prog, res)
     res.run_rule(rule_r14, prog, res)
     res.run_rule(rule_r15, prog, res)
+    res.run_rule(rule_r16, prog, res)
 
 
 _I = 'spyne/protocol/_inbase.py'
@@ -815,6 +864,20 @@ _B = 'spyne/model/binary.py'
 _S = 'spyne/protocol/soap/soap11.py'
 
 MUTANTS = [
+    Mutant('xmldata-binary-read-without-encoding', 'R16', 'fire',
+           'spyne/protocol/xml.py',
+           in_func('XmlDocument.complex_from_element',
+                   "elt.text, self.binary_encoding)", "elt.text)"),
+           'binary-encoding'),
+    Mutant('xmlattr-binary-read-without-encoding', 'R16', 'fire',
+           'spyne/protocol/xml.py',
+           in_func('XmlDocument.complex_from_element',
+                   "value = self._validated_from_unicode(member.type, "
+                   "value_str,\n                                              "
+                   "             self.binary_encoding)",
+                   "value = self._validated_from_unicode(member.type, "
+                   "value_str)"),
+           'binary-encoding'),
     Mutant('microseconds-round-before-multiply', 'R14', 'fire', _I,
            in_func('_parse_datetime_iso_match',
                    "int(round(float(usecond) * 1e6))",
